@@ -255,6 +255,24 @@ def mask(h: bytes) -> bytes:
     return h[:16] + b"\0" * 8 + h[24:]
 
 
+def read_call(c, tval, ack: bool, sync: bool, shape: int):
+    """`Client.read_message` the way callers write it: every second call leaves out the arguments that have their
+    documented default (`timeout=-1`, `ack=False`, `sync_check=False`), every fourth passes all three positionally - the
+    defaults and the parameter order of the signature are part of what is compared"""
+    if shape % 4 == 3:
+        return c.read_message(tval, ack, sync)
+    if shape % 2 == 0:
+        return c.read_message(timeout=tval, ack=ack, sync_check=sync)
+    kw: Dict[str, Any] = {}
+    if not (tval is not None and tval == -1):
+        kw["timeout"] = tval
+    if ack:
+        kw["ack"] = True
+    if sync:
+        kw["sync_check"] = True
+    return c.read_message(**kw)
+
+
 def run_case(cid: str, case: Dict[str, Any]) -> List[str]:
     """case: timecode, frames [(hdr, payload)], tail, end, cuts, sub (all, [types]), calls [...]"""
     E = env()
@@ -312,7 +330,7 @@ def run_case(cid: str, case: Dict[str, Any]) -> List[str]:
         tval = {"none": None, "zero": 0, "pos": 0.25, "neg": -1}[tmo]
         before = sock.pos
         try:
-            m = c.read_message(timeout=tval, ack=ack, sync_check=sync)
+            m = read_call(c, tval, ack, sync, len(obs))
             if m is None:
                 r = "none"
             else:
@@ -689,7 +707,7 @@ def run_life_case(cid: str, case: Dict[str, Any]) -> List[str]:
             tval = {"none": None, "zero": 0, "pos": 0.25, "neg": -1}[tmo]
             before = cur.pos if cur is not None else 0
             try:
-                m = c.read_message(timeout=tval, ack=ack, sync_check=sync)
+                m = read_call(c, tval, ack, sync, len(lines))
                 r = "none" if m is None else f"msg {hexs(mask(bytes(m.header)))} {hexs(bytes(m.data))}"
             except WouldBlock:
                 r = "blocked"
